@@ -206,7 +206,13 @@ class Resolver:
             elif isinstance(n, ast.AnnAssign) and n.value is not None:
                 add(n.target, n.value)
             elif isinstance(n, (ast.For, ast.comprehension)):
-                add(n.target, ('elem', n.iter))
+                it = n.iter
+                if isinstance(it, ast.Call) and isinstance(it.func, ast.Name) and it.func.id == 'enumerate' and it.args \
+                        and isinstance(n.target, (ast.Tuple, ast.List)) and len(n.target.elts) == 2:
+                    add(n.target.elts[0], ast.Constant(value=0))
+                    add(n.target.elts[1], ('elem', it.args[0]))
+                else:
+                    add(n.target, ('elem', n.iter))
             elif isinstance(n, ast.ExceptHandler) and n.name:
                 defs.setdefault(n.name, []).append(('exc', n.type))
             elif isinstance(n, ast.With):
